@@ -209,3 +209,32 @@ package objectz
 //@   modifies *
 //@   callpre[the-query-goes-to-the-sorting-scan-as-given] Scan@1: arg0 == self && arg1 == query
 //@   lensures[always-through-the-sorting-scan] called(Scan, 1) && result0 == ret(Scan, 1, 0) && result1 == ret(Scan, 1, 1) && result2 == ret(Scan, 1, 2)
+
+// the untyped view of a symbol boxes exactly the pointer its function returns (null stays null, a zero value stays a value)
+//@ func (*ObjectStringSymbol).Eval
+//@   props C19
+//@   pure
+//@   ensures[boxes-what-the-function-returns] dyn(result) == typeid(*string) && ref(result) == ref(oStr(self, entity))
+//@ func (*ObjectInt64Symbol).Eval
+//@   props C19
+//@   pure
+//@   ensures[boxes-what-the-function-returns] dyn(result) == typeid(*int64) && ref(result) == ref(oInt(self, entity))
+//@ func (*ObjectFloat64Symbol).Eval
+//@   props C19
+//@   pure
+//@   ensures[boxes-what-the-function-returns] dyn(result) == typeid(*float64) && ref(result) == ref(oFlt(self, entity))
+//@ func (*ObjectBoolSymbol).Eval
+//@   props C19
+//@   pure
+//@   ensures[boxes-what-the-function-returns] dyn(result) == typeid(*bool) && ref(result) == ref(oBool(self, entity))
+//@ func (*ObjectDatetimeSymbol).Eval
+//@   props C19
+//@   pure
+//@   ensures[boxes-what-the-function-returns] dyn(result) == typeid(*time.Time) && ref(result) == ref(oTime(self, entity))
+//@ func (*ObjectStore).QueryEntities
+//@   props C19
+//@   nosafety
+//@   waive pre#QueryEntitiesC ast.Parse returns a query or an error (C10's concern; not restated here)
+//@   modifies *
+//@   callpre[the-parsed-query-goes-to-the-one-query-path] QueryEntitiesC@1: recv == self && arg0 == ret(Parse, 1, 0)
+//@   lensures[every-parsed-query-takes-the-one-query-path] called(Parse, 1) && (ret(Parse, 1, 1) == nil ==> called(QueryEntitiesC, 1))
